@@ -180,8 +180,9 @@ def protocol_block(_b):
             eng.prove(f"{base}/protocol.common_loading_representation_requested/{cfg}",
                       all(k == keys_l[0] for k in keys_l) and keys_l[0]['loading_unit'] and keys_l[0]['material_unit'] and keys_l[0]['branch'] == 'des',
                       extra={'observed': str(keys_l)})
-            complete = all(k == keys_p[0] for k in keys_p) and keys_p[0]['pressure_mode'] in ('absolute', 'relative', 'relative%') and \
-                (keys_p[0]['pressure_mode'] != 'absolute' or keys_p[0]['pressure_unit'])
+            # one common *absolute* unit: ln(p / p0(T)) would subtract the vaporisation enthalpy from the slope (the saturation
+            # pressure changes with temperature), so a relative mode is not a representation the regression may be done in
+            complete = all(k == keys_p[0] for k in keys_p) and keys_p[0]['pressure_mode'] == 'absolute' and bool(keys_p[0]['pressure_unit'])
             eng.prove(f"{base}/protocol.common_complete_pressure_representation_requested/{cfg}", bool(complete),
                       extra={'observed': str(keys_p), 'replay': {'kind': 'c19.units'}})
             eng.prove(f"{base}/protocol.temperatures_in_kelvin_passed_in_isotherm_order/{cfg}",
